@@ -201,11 +201,20 @@ def Commissioning(available_addresses=None, readdress=False,
     yield Initialise(broadcast=True if readdress else False)
 
     finished = False
+    restart = False
     # We loop here to cope with multiple devices picking the same
     # random search address; when we discover that, we
     # re-randomise and begin again.  Devices that have already
     # received addresses are unaffected.
     while not finished:
+        if restart and not dry_run:
+            # Withdrawn devices still react to Randomise and
+            # ProgramShortAddress; take the ones that already have a
+            # short address out of the process so that a re-drawn
+            # random address cannot make them pick up a second one
+            yield Terminate()
+            yield Initialise(broadcast=False)
+        restart = True
         yield Randomise()
         # Randomise can take up to 100ms
         yield sleep(0.1)
